@@ -49,6 +49,24 @@ func withFileSizeLimit(limit uint64, f func()) {
 	f()
 }
 
+// lowerFileSizeLimit lowers the limit and returns the function that restores it.
+func lowerFileSizeLimit(limit uint64) func() {
+	signal.Ignore(syscall.SIGXFSZ)
+	var old syscall.Rlimit
+	if err := syscall.Getrlimit(syscall.RLIMIT_FSIZE, &old); err != nil {
+		panic("harness: getrlimit: " + err.Error())
+	}
+	lowered := syscall.Rlimit{Cur: limit, Max: old.Max}
+	if err := syscall.Setrlimit(syscall.RLIMIT_FSIZE, &lowered); err != nil {
+		panic("harness: setrlimit: " + err.Error())
+	}
+	return func() {
+		if err := syscall.Setrlimit(syscall.RLIMIT_FSIZE, &old); err != nil {
+			panic("harness: setrlimit (restore): " + err.Error())
+		}
+	}
+}
+
 func sysData(n int) []byte { return bytes.Repeat([]byte{0xAB}, n) }
 
 var sysPre = []byte{0x70}
@@ -416,6 +434,23 @@ func runSys(r *core.Run) {
 				}
 				sc := Scenario{Format: c06.V1, Cache: -1, Mode: ModeNone, History: h, Op: "g:" + t, Follow: followUps(slots), NoLink: true, Limit: l, Len: keyLen}
 				cases = append(cases, sysCase{sc.Line(), []string{"stream:boundary", "scenario:no-hard-links", "format:v1", "mode:sys", "call:Copy", "fault-inside-copy"}, nil})
+			}
+		}
+	}
+	// ---- acra-rotate: the in-place rewrite of a data file hits the limit (write error after the truncation)
+	for _, format := range []string{"v1", "v2"} {
+		ns := []int{1, 2}
+		if r.Thorough() {
+			ns = []int{1, 2, 3}
+		}
+		for _, n := range ns {
+			for k := 1; k < 2*n; k += 2 {
+				for _, l := range []int{0, 10} {
+					if !r.Thorough() && (l == 0) != (format == "v1") {
+						continue
+					}
+					cases = append(cases, sysCase{fmt.Sprintf("C08.rot %s sys%d %d %d", format, l, k, n), []string{"stream:boundary", "scenario:rotate-tool", "mode:sys", "fault-inside-rewrite"}, nil})
+				}
 			}
 		}
 	}
